@@ -62,11 +62,16 @@ def relayout(src, rnd, stats=None):
             text += ' ' + emit(lines[k][1], rnd, lvl * unit, stats)
             stats['oneliner'] = stats.get('oneliner', 0) + 1
         if rnd.random() < 0.15:
-            res.append('')
+            res.append(rnd.choice(['', '', '\x0c']))      # blank line or a page break (form feed): both are layout only
+            if res[-1]:
+                stats['formfeed'] = stats.get('formfeed', 0) + 1
         if rnd.random() < 0.1:
             res.append(indent(lvl) + '# c')
         res.append(indent(lvl) + text + (rnd.choice(['', '  # t']) if rnd.random() < 0.1 else ''))
         k += 1
+    if rnd.random() < 0.08:
+        stats['crlf'] = 1
+        return '\r\n'.join(res) + '\r\n'
     return '\n'.join(res) + '\n'
 
 
